@@ -153,16 +153,16 @@ def cells(tier):
     pats = [(), ("day",), ("month", "day"), ("reltime",), ("hour", "minute", "second", "microsecond"),
             ("year", "month", "day"), ("day", "reltime"), ("month",), ("year",)]
     for kind in ("date", "datetime"):
-        for y in (2024, 1900, 2000, 2023, 3, 9997):
-            for years in (-2, -1, 0, 1, 2):
+        for y in ((2024, 1900, 2000, 3, 9997) if kind == "date" else (2024,)):
+            for years in ((-1, 0, 1) if kind == "date" else (0,)):
                 if not (2 <= y + years <= 9998):
                     continue
                 for absf in pats:
                     for wd in (None, "pos", "neg"):
                         for op in ("add", "sub", "radd"):
-                            if op != "add" and (y not in (2024, 1900) or years not in (0, 1)):
+                            if op != "add" and (y != 2024 or years != 0):
                                 continue
-                            add(kind, y, years, absf, wd, op, 1500)
+                            add(kind, y, years, absf, wd, op, 1200)
     return cs
 
 
